@@ -74,7 +74,7 @@ def main():
             print(json.dumps(res, indent=1))
             return 2
         # refresh the diff against the current HEAD (context may have shifted)
-        patch = sh(["git", "diff"], cwd=wt)[1]
+        patch = sh(["git", "diff", "HEAD"], cwd=wt)[1]
         env = {"PYTHONPATH": str(wt), "PYTHONDONTWRITEBYTECODE": "1"}
         rc, out = sh([PY, "-c", "import pyiron_workflow; print(pyiron_workflow.__file__)"], cwd=wt, env=env)
         res["imports"] = rc == 0 and str(wt) in out
